@@ -163,4 +163,32 @@ function renderModule(host, jsx, ctx = 'arrow') {
   return (h.imports ? h.imports + '\n' : '') + PRELUDE + body + '\n';
 }
 
-module.exports = { makeEnv, ATTRS, CORE_ATTRS, ALL_ATTRS, MERGEABLE, HOSTS, CHILDREN, isText, optsJson, PRELUDE, renderJsx, renderModule, TX };
+// ---------------------------------------------------------------- semantically transparent wrappers (.tsx)
+// Parentheses and TypeScript's type-only wrappers do not change what an expression evaluates to; a case rendered with
+// a wrapper has the same reference-model answer as the case without it.
+const simple = (e) => /^[\w$.]+(\(\))?$/.test(e);
+const par = (e) => (simple(e) ? e : `(${e})`);
+const WRAPS = {
+  paren: (e) => `(${e})`,
+  nonnull: (e) => `${par(e)}!`,
+  as: (e) => `${par(e)} as any`,
+  satisfies: (e) => `${par(e)} satisfies any`,
+  parenAs: (e) => `(${par(e)} as any)`,
+  nnParen: (e) => `(${par(e)}!)`,
+};
+// wrap the value expression of an attribute source (`name={E}` / `{...E}`); null when there is no expression
+function wrapAttr(src, w) {
+  let m = /^\{\.\.\.([\s\S]*)\}$/.exec(src);
+  if (m) return `{...${WRAPS[w](m[1])}}`;
+  m = /^([^={]+)=\{([\s\S]*)\}$/.exec(src);
+  if (m) return `${m[1]}={${WRAPS[w](m[2])}}`;
+  return null;
+}
+function wrapChild(src, w) {
+  const sp = /^\{\.\.\.([\s\S]+)\}$/.exec(src);
+  if (sp) return `{...${WRAPS[w](sp[1])}}`;
+  const m = /^\{(?!\.\.\.|\/\*)([\s\S]+)\}$/.exec(src);
+  return m ? `{${WRAPS[w](m[1])}}` : null;
+}
+
+module.exports = { WRAPS, wrapAttr, wrapChild, makeEnv, ATTRS, CORE_ATTRS, ALL_ATTRS, MERGEABLE, HOSTS, CHILDREN, isText, optsJson, PRELUDE, renderJsx, renderModule, TX };
